@@ -38,10 +38,11 @@ def common_suffix(rng, doc):
     return lines
 
 
-def xml_history(rng, quick=True):
+def xml_history(rng, quick=True, simple=True):
     ndocs = rng.choice([1, 1, 2])
+    extra = heapgen.XML_EXTRA if simple else {k: v for k, v in heapgen.XML_EXTRA.items() if k != 'simple'}
     c = heapgen.gen_history(rng, nops=rng.choice([8, 25, 50] if quick else [10, 40, 90]), ndocs=ndocs,
-                            extra_ops=heapgen.XML_EXTRA, snapshot_every=0, weights=W_C01)
+                            extra_ops=extra, snapshot_every=0, weights=W_C01)
     c = [l for l in c if l not in ('end', 'snapshot')]
     docs = ['d%d' % i for i in range(ndocs)]
     if rng.random() < 0.35:
@@ -302,4 +303,86 @@ class C08:
         ctx.coverage['faults_injected'] = dict(sorted(cls.by_fault.items()))
 
 
-SPECS = {'C01': C01, 'C02': C02, 'C08': C08}
+def rename_handles(lines, prefix):
+    import re
+    return [re.sub(r'\b(xp|[hdcx][a-z]?\d+)\b', lambda m: prefix + m.group(1), l) if not l.startswith('bindcd') else
+            re.sub(r'^bindcd (\w+) (\w+) ', lambda m: 'bindcd %s%s %s%s ' % (prefix, m.group(1), prefix, m.group(2)), l)
+            for l in lines]
+
+
+class C13:
+    what = 'LayoutGen.v (container inventory) regenerated from the sources; the same bytes / the same call sequence under different address orders on libadm'
+    use_model = False
+    snapshots = False
+    rule = ('(a) generated ADM files parsed and written under five address layouts (a replaced global operator new that '
+            'hands out the chunks of each size class in a seeded pseudo-random order; layout 0 = plain malloc); '
+            '(b) API histories (as C01) replayed twice in one process under two layouts, the XML of every document '
+            'compared; (c) one document written twice with an allocator perturbation in between; non-trivial = cases '
+            'whose XML has at least one reference')
+    assumptions = ['address layouts are produced by the perturbing allocator of harness/cpp/perturb.cpp; an order that '
+                   'no seeded layout produces is not explored (the container inventory theorem is what covers all layouts)',
+                   'process-to-process variation (ASLR) is covered by running the sharded driver processes']
+    ncases_quick, ncases_thorough = 300, 6000
+    SEEDS = (0, 1, 2, 3, 7)
+
+    @classmethod
+    def gen(cls, ctx):
+        import admxmlgen
+        n = cls.ncases_quick if ctx.quick() else cls.ncases_thorough
+        out = []
+        for _ in range(n // 2):
+            x, info = admxmlgen.gen_file(ctx.rng, size=ctx.rng.choice([2, 3, 3]))
+            h = x.encode().hex()
+            c = []
+            for s in cls.SEEDS:
+                c += ['perturb %d' % (s if s == 0 else ctx.rng.randrange(1, 1 << 30)), 'pw %s %s %s' % (h, info['env'], '0')]
+            out.append(c + ['end'])
+        hist = successful_prefixes([xml_history(ctx.rng, ctx.quick(), simple=False) for _ in range(n - n // 2)])
+        for c, docs in hist:
+            first = ['perturb %d' % ctx.rng.randrange(1, 1 << 30)] + rename_handles(c, 'a')
+            second = ['perturb %d' % ctx.rng.randrange(1, 1 << 30)] + rename_handles(c, 'b')
+            tail1, tail2 = [], []
+            for d in docs:
+                env, df = ctx.rng.choice(CONFIGS)
+                tail1.append('showxml a%s %s %s' % (d, env, df))
+                tail2 += ['showxml b%s %s %s' % (d, env, df), 'perturb %d' % ctx.rng.randrange(1, 1 << 30),
+                          'showxml b%s %s %s' % (d, env, df)]
+            out.append(first + tail1 + second + tail2 + ['end'])
+        return out
+
+    @staticmethod
+    def nontrivial(ops):
+        return any('IDRef' in r or r.startswith('ok xml') for op, r, _s in ops)
+
+    @staticmethod
+    def oracle(case, ops):
+        out = []
+        pws = [(op, r) for op, r, _s in ops if op.startswith('pw ')]
+        if len({r for _o, r in pws}) > 1:
+            out.append(('parse-layout-dependent', 'parsing and writing the same bytes under different address layouts gives '
+                        'different XML: %s' % sorted({r for _o, r in pws})[:3]))
+        shows = {}
+        for op, r, _s in ops:
+            if op.startswith('showxml'):
+                t = op.split()
+                import re
+                # default element names are the script handles: undo the renaming of the second replay
+                shows.setdefault((t[1][1:], t[2], t[3]), []).append((t[1][0], re.sub(r'\b[ab](xp|[hdcx][a-z]?\d+)\b', r'\1', r)))
+        for key, lst in shows.items():
+            if len({r for _p, r in lst}) > 1:
+                same_run = [r for p_, r in lst if p_ == 'b']
+                tag = 'write-twice-differs' if len(set(same_run)) > 1 else 'replay-layout-dependent'
+                import heapcheck
+                a, b = sorted({r for _p, r in lst})[:2]
+                al, bl = a.split('\\n'), b.split('\\n')
+                diff = next(('%s ||| %s' % (x.strip(), y.strip()) for x, y in zip(al, bl) if x != y), 'lengths differ')
+                out.append((tag, 'the same API call sequence / the same document gives different XML under another address layout (%s): %s'
+                            % (' '.join(key), diff[:200])))
+        return out
+
+    @staticmethod
+    def shrink(case, fails):
+        return case          # the two replays of a case must stay identical; line-wise shrinking would break the pairing
+
+
+SPECS = {'C01': C01, 'C02': C02, 'C08': C08, 'C13': C13}
